@@ -316,6 +316,32 @@ def declare_group(w):
     w.add(Contract(f"{MULTI}:Group.__len__", {"self": REF("Group")},
                    cases=[Case("ok", restype=INT, post=lambda a, h, h2, r: [r == slen(gws(h, a.self))])], props=["C20"]))
 
+    # ---- __iter__: an iterator over a SNAPSHOT of the member list (callers exit/unregister members while they iterate: Group.terminate, C05) ---------------
+    s.declare("ListIter", "$seq", SEQ(REF("Gateway")), ghost=True)     # what the iterator will yield if nobody touches the list
+    s.declare("ListIter", "$live", BOOL, ghost=True)                   # it walks the group's own list object (removals during the walk make it skip members)
+    s.set_bases("ListIter", ["object"])
+
+    def b_list(ex, args, kwargs, st, sink, node):
+        (v,) = args
+        if v.ty.kind != "seq" or kwargs:
+            raise Unsupported(f"list({v.ty!r})")
+        yield st, SV(v.ty, v.v)           # a new list object with the same elements
+
+    def b_iter(ex, args, kwargs, st, sink, node):
+        (v,) = args
+        if v.ty != SEQ(REF("Gateway")) or kwargs:
+            raise Unsupported(f"iter({v.ty!r})")
+        r = ex.allocate(st, "ListIter")
+        ex.set_field(st, r, "$seq", SV(v.ty, v.v))
+        ex.set_field(st, r, "$live", mk_bool(v.loc is not None and v.loc[0] == "field"))
+        yield st, r
+
+    w.externals["builtins.list"] = b_list
+    w.externals["builtins.iter"] = b_iter
+    w.add(Contract(f"{MULTI}:Group.__iter__", {"self": REF("Group")},
+                   cases=[Case("ok", restype=REF("ListIter"), post=lambda a, h, h2, r: [r != 0, h2("ListIter", r, "$seq") == gws(h, a.self), z3.Not(h2("ListIter", r, "$live"))])],
+                   props=["C20", "C05"], allocates=True))
+
     # ---- allocate_id ----------------------------------------------------------------------
     GW = z3.StringVal("gw")
     ID = z3.StringVal("id")
